@@ -17,7 +17,7 @@ CLAIMS = {
 
 CLAIMS["C17"] = (
     "path rules / typestate over SSA control-flow graphs (error-before-marker, drain-after-done, checked flush), who-may-exit call-graph rule, dropped-error enumeration",
-    "Decides that every error that is raised reaches a non-zero exit in every send/receive order: on every CFG path a verb's error is posted before the end-of-stream marker, the writer posts before done, every done-waiter drains the error channels afterwards, Flush/Close errors of output are returned, no module error result on the data path is discarded (1 000+ call sites enumerated, discards classified), failed low-level reads are reported and end the read loop, os.Exit only from the keep-list with non-zero constant status, exitOnError always exits. It does not decide that a reader detects a given malformed input.",
+    "Decides that every error that is raised reaches a non-zero exit in every send/receive order: on every CFG path a verb's error is posted before the end-of-stream marker, the writer posts before done, every done-waiter drains the error channels afterwards, Flush/Close errors of output are returned, no module error result on the data path is discarded (1 000+ call sites enumerated, discards classified), failed low-level reads are reported and end the read loop, os.Exit only from the keep-list with non-zero constant status, exitOnError always exits, and the message next to a failure exit goes to stderr. It does not decide that a reader detects a given malformed input.",
     "Trusts go/ssa's CFG, that select picks among ready channels arbitrarily, that a send on a full buffered channel blocks, and that bufio.Writer errors are sticky. Frozen exception tables (exit keep-list, tolerated discards) are in checker/exits.go and checker/c17.go with one reason per entry.",
     "DESIGN.md §3 C17",
 )
@@ -90,14 +90,14 @@ CLAIMS["C14"] = (
 )
 
 CLAIMS["C07"] = (
-    "NONZERO fixpoint for integer divisors, shift-count typing, kind-guard analysis of kernels against their cells, return summaries for int-preservation, operator-signature check (Go operator × operand provenance) of all numeric kernels",
-    "Decides the no-crash clause (no integer division/modulus by an unproven divisor, no signed non-constant shift) and the dispatch wiring of every arithmetic/bit/min/max/relational operator: one matrix per operator, kernels accept the kinds of their cells, documented int-preserving cells build no float and mixed cells return floats, and each numeric kernel applies the Go operator the DSL operator denotes with the left operand on the left. Exactness, overflow detection and sign conventions are NOT decided (value-level).",
+    "NONZERO fixpoint for integer divisors, shift-count typing, kind-guard analysis of kernels against their cells, return summaries for int-preservation, operator-signature check (Go operator × operand provenance) of all numeric kernels, conversion-chain scan (int64→float64→int64 feeding an int result)",
+    "Decides the no-crash clause (no integer division/modulus by an unproven divisor, no signed non-constant shift) and the dispatch wiring of every arithmetic/bit/min/max/relational operator: one matrix per operator, kernels accept the kinds of their cells, documented int-preserving cells build no float and mixed cells return floats, each numeric kernel applies the Go operator the DSL operator denotes with the left operand on the left, and no integer result is produced by converting an integer operand to float64 and back without any test of an operand or of the float (the absence of a test is decided lossy beyond 2^53; whether a present test is the right one is not decided). Exactness, overflow detection and sign conventions are otherwise NOT decided (value-level).",
     "Trusts go/ssa; a - b written as a + (-b) is accepted (equal except at the int64 minimum). Frozen divisor exceptions with reasons in checker/nonzero.go.",
     "DESIGN.md §3 C07",
 )
 CLAIMS["C18"] = (
-    "flow analysis over the 12 value kinds + 'not yet inferred' (predicate meanings and accessor requirements derived by abstract evaluation of package mlrval), parameter preconditions to fixpoint checked at callers, table cells and all registered built-ins; NONZERO analysis; loop-progress and make-length rules; read-loop path rule; who-may-exit",
-    "Decides, universally over kind tuples, that no typed access / kind assertion can abort: ~500 Acquire…Value/assertion sites are each proven guarded by a dominating kind test or become a precondition that every caller, every one of ~2 700 disposition cells and every one of ~290 registered built-ins satisfies for all kinds incl. un-inferred values; plus no integer division by an unproven divisor, no signed shift count, no zero-step loop in the built-ins, no make() with a possibly negative length, failed reads end their loop, exits only from the keep-list. Index/slice bounds, nil dereference and recursion depth are NOT decided.",
+    "flow analysis over the 12 value kinds + 'not yet inferred' (predicate meanings and accessor requirements derived by abstract evaluation of package mlrval), parameter preconditions to fixpoint checked at callers, table cells and all registered built-ins; NONZERO analysis; loop-progress and make-length rules; slice-bound origin classification (constants, length/search of the sliced value, regexp indices, index validators) with dominating length tests, fixed-width window slices, slab cursors; read-loop path rule; who-may-exit",
+    "Decides, universally over kind tuples, that no typed access / kind assertion can abort: ~500 Acquire…Value/assertion sites are each proven guarded by a dominating kind test or become a precondition that every caller, every one of ~2 700 disposition cells and every one of ~290 registered built-ins satisfies for all kinds incl. un-inferred values; plus no integer division by an unproven divisor, no signed shift count, no zero-step loop in the built-ins, no make() with a possibly negative length, failed reads end their loop, exits only from the keep-list; and, in the built-ins, library string helpers, scanners and the value model, every slice expression has bounds that are justified by their origin or reached after a test that mentions the length of the sliced value, every fixed-width window slice and every slab[cursor] access is length-tested. Element indexing in general, the arithmetic inside the index validators, nil dereference and recursion depth are NOT decided.",
     "Trusts go/ssa and the abstract evaluator (values that depend on loops are havocked; a memory location re-loaded at each use is assumed unchanged between test and use). One assertion is frozen as a CST-builder invariant (checker/c18.go).",
     "DESIGN.md §3 C18",
 )
